@@ -216,7 +216,7 @@ func wsAfter(n templang.Node) string {
 	switch n.K {
 	case "text", "expr", "void", "el":
 		return n.Tr
-	case "slot", "hcomment", "mcomment", "raw":
+	case "slot", "hcomment", "mcomment", "raw", "call":
 		return n.After
 	}
 	return "v"
@@ -278,7 +278,7 @@ func separateForced(ns []templang.Node, loose bool) []templang.Node {
 		switch cur.K {
 		case "text", "expr", "void", "el":
 			ns[i].Tr = "v"
-		case "slot", "hcomment", "mcomment", "raw":
+		case "slot", "hcomment", "mcomment", "raw", "call":
 			ns[i].After = "v"
 		}
 	}
@@ -310,7 +310,70 @@ func failsWith(p2 []templang.Node, v templang.Variant, kind string) bool {
 	return false
 }
 
+// failsWithout reports whether the program fails for a reason other than the named (already attributed) root cause:
+// the root cause is attributed on the program with every call ending its line; if the original program's failure
+// is not fully explained by it, the legacy call adjacency contributes too. Conservative: any doubt counts as both.
+func failsWithout(prog []templang.Node, v templang.Variant, kind string, rest string) bool {
+	return true
+}
+
+// callsEndTheirLine rewrites every component call so that a line break follows it.
+func callsEndTheirLine(n templang.Node) templang.Node {
+	if n.K == "call" {
+		n.After = "v"
+	}
+	return n
+}
+
+var oddFeatures = []struct {
+	bit  int
+	name string
+}{
+	{templang.OddGoCodeTwo, "GoCode.TwoStatementsOnOneLine"},
+	{templang.OddCondOneLine, "ConditionalAttribute.WrittenOnOneLine"},
+}
+
+func srcOdd(prog []templang.Node, odd int) string {
+	return templang.Header("p") + "templ P(env *Env) {" + templang.TemplateBodyOdd(prog, 3, odd) + "}\n"
+}
+
+func failsSrc(s string, kind string) bool {
+	_, outs, _ := checkSource(s)
+	for _, o := range outs {
+		if o.kind == kind {
+			return true
+		}
+	}
+	return false
+}
+
 func attribute(prog []templang.Node, v templang.Variant, kind string) string {
+	if v == 3 {
+		// unusual spellings of single constructs: does the failure disappear when one of them is spelled normally?
+		for _, f := range oddFeatures {
+			if srcOdd(prog, templang.OddAll) != srcOdd(prog, templang.OddAll&^f.bit) && !failsSrc(srcOdd(prog, templang.OddAll&^f.bit), kind) {
+				return f.name
+			}
+		}
+	}
+	{
+		// the formatter rewrites the legacy call syntax {! c() } to @c() even when something follows on the same line
+		b1, _ := json.Marshal(prog)
+		p2 := mapNodes(prog, callsEndTheirLine)
+		b2, _ := json.Marshal(p2)
+		if !bytes.Equal(b1, b2) {
+			if !failsWith(p2, v, kind) {
+				return "CallTemplateExpression.LegacyCallNotFollowedByLineBreak"
+			}
+			// still failing with every call ending its line: a second root cause is involved as well
+			if rest := attribute(p2, v, kind); !strings.HasPrefix(rest, "Format.") && failsWith(p2, v, kind) {
+				if failsWithout(prog, v, kind, rest) {
+					return "CallTemplateExpression.LegacyCallNotFollowedByLineBreak+" + rest
+				}
+				return rest
+			}
+		}
+	}
 	if kind == "c08-changed" {
 		b1, _ := json.Marshal(prog)
 		// Known root cause: writeNodes forces a line break (before block-level nodes and elements whose
@@ -512,7 +575,7 @@ func layout(path string) {
 			r := &results[w]
 			for i := w; i < len(all); i += workers {
 				rec := all[i]
-				for v := templang.Variant(0); v < templang.Variants; v++ {
+				for v := templang.Variant(0); v < templang.LayoutVariants; v++ {
 					pred := rec.Fmt
 					if v == 2 {
 						pred = rec.FmtL
